@@ -14,11 +14,12 @@ import declib, gens
 from capi import Buf, Prefs, COpts
 from vlib import Oracle, build_lib, hx, md5
 
-ORACLES = ["framed"]
+ORACLES = ["framed", "framec"]
 THEOREMS = ["C19_reset_restores_invariant", "C19_frame_end_is_reset", "C19_reset_is_fresh", "C19_frame_end_is_fresh", "C19_stops_at_frame_end", "C19_getFrameInfo",
             "C19_getFrameInfo_error_unchanged", "C19_cctx_begin_after_any_history"]
 CORRESPONDENCE = ["FrameD model == LZ4F_decompress/_usingDict/getFrameInfo/reset on reused contexts: per call (consumed, produced, bytes, return value, private dctx fields)",
-                  "FrameCtx.cbegin model == (lz4CtxAlloc, lz4CtxType, cStage) of the real LZ4F_cctx after every LZ4F_compressBegin"]
+                  "FrameCtx.cbegin model == (lz4CtxAlloc, lz4CtxType, cStage) of the real LZ4F_cctx after every LZ4F_compressBegin",
+                  "FrameC model == LZ4F compression API on ONE cctx reused over 4 frames (every ordered pair of level class x dictionary kind x block mode): per call return value and bytes, every block validated against the model's history (shared with C03)"]
 RULE = ("skipChecksums used on frame k then a checksum-only-damaged frame k+1 without the option (with/without reset between); histories on one LZ4F_dctx built from {complete frame, skippable frame, frame truncated at a random point + reset, corrupted frame "
         "(error) + reset, getFrameInfo use, frame with dictionary} followed by a probe frame under a random chunking/capacity policy, replayed on a "
         "fresh context; multi-frame buffers; getFrameInfo at every stage; histories on one LZ4F_cctx built from {finished session, unfinished session, "
@@ -30,7 +31,7 @@ TRUSTED = ["hand-written models Model/FrameD.v and Model/FrameCtx.v, tied by the
 ASSUMPTIONS = ["malloc succeeds", "after a decoding error the caller resets the context before the next call (documented contract)"]
 
 def build(tier):
-    return {"lib": build_lib("framedpeek", wrappers=["framed_peek.c"]), "case_timeout": 600}
+    return {"lib": build_lib("framedpeek", wrappers=["framed_peek.c"]), "framec_lib": build_lib("framec"), "case_timeout": 1800}
 
 def gen_cases(tier, seed):
     rng = random.Random(seed)
@@ -43,11 +44,17 @@ def gen_cases(tier, seed):
     for kind, cnt in zip(["reuse", "multi", "info", "cctx"], n):
         for _ in range(cnt):
             cases.append({"kind": kind, "bseed": rng.randrange(1 << 48)})
+    # compression contexts reused across sessions, byte level: ONE cctx over 4 frames walking every ordered pair of
+    # (fast | HC level) x (no dictionary | usingDict | CDict) x block mode (machinery and model shared with C03: Model.FrameC)
+    for i in range({"quick": 24, "search": 48, "thorough": 48}[tier]):
+        cases.append({"kind": "cctx_walk", "bseed": rng.randrange(1 << 48), "seed": rng.randrange(1 << 48), "tier": tier, "idx": i})
     cases.append({"kind": "corpus", "bseed": 1})
     return cases
 
 def worker_init(ctx):
-    return {"lib": F.FLib(ctx["lib"]), "oracle": Oracle(name="framed")}
+    from capi import Lib
+    return {"lib": F.FLib(ctx["lib"]), "oracle": Oracle(name="framed"),
+            "fc": {"L": Lib(ctx["framec_lib"]), "oracle": Oracle(name="framec")}}
 
 class Acc:
     def __init__(self, kind):
@@ -503,6 +510,14 @@ def k_infodict(st, acc, rng, case):
 def run_case(st, case):
     rng = random.Random(case["bseed"])
     kind = case["kind"]
+    if kind == "cctx_walk":
+        import framelib
+        out = framelib.run_session_case(st["fc"], dict(case, kind="reuse"), "c03")
+        for r in out:
+            r["kind"] = "cctx_walk"
+            if r.get("what"):
+                r["what"] = "compression context reused across sessions: " + r["what"]
+        return out
     acc = Acc(kind)
     {"reuse": k_reuse, "multi": k_multi, "info": k_info, "cctx": k_cctx, "corpus": k_corpus, "skipleak": k_skipleak, "infodict": k_infodict}[kind](st, acc, rng, case)
     return acc.results()
